@@ -708,6 +708,11 @@ def branches(ctx, block):
     ctx.add("states", int(torch.unique(torch.cat([s.reshape(N, H) for s in auto.states], 0)
                                        .nan_to_num(nan=12345.0), dim=0).size(0)))
     pl_scale = float(world.spot.abs().max()) * T * max(1.0, float(ref.nan_to_num().abs().max())) + 1.0
+    hl = world.hedge if world.hedge is not None else list(world.d.underliers())
+    with torch.no_grad():
+        spot_h = torch.stack([h.spot for h in hl], dim=1)
+        cost_h = [h.cost for h in hl]
+        payoff_h = world.d.payoff()
     for what in ("hedge", "pl", "portfolio", "loss"):
         a, b = res["vectorised"][what], res["stepwise"][what]
         if tuple(a.shape) != tuple(b.shape) or a.dtype != b.dtype:
@@ -715,8 +720,19 @@ def branches(ctx, block):
                           f"{what}: vectorised {tuple(a.shape)} {a.dtype} vs stepwise {tuple(b.shape)} {b.dtype} ({desc})",
                           observed=[list(a.shape), str(a.dtype)], expected=[list(b.shape), str(b.dtype)], block=block)
             continue
-        scale = 1.0 if what == "hedge" else pl_scale
-        ok = _close(a, b, exact, scale)
+        if what == "hedge":
+            # element-wise, independent of memory layout: bitwise for exact models
+            ok = _close(a, b, exact, 1.0)
+        else:
+            # sums: equal up to the rounding of the sums involved (the reduction order legitimately depends
+            # on the memory layout of the hedge tensor); for inexact models add the hedge tolerance
+            # propagated through the cash flows
+            slack = hw.pl_rounding_bound(spot_h, ref, cost_h, None if what == "portfolio" else payoff_h)
+            if not exact:
+                slack = slack + hw.tol(world.dtype) * pl_scale
+            if what == "loss":
+                slack = hw.loss_rounding_bound(slack, N, world.dtype, b)
+            ok = ((a - b).abs() <= slack) | _eq(a, b)
         if not ok.all():
             if what == "loss":
                 obs, exp, mini = float(a), float(b), block
@@ -974,6 +990,20 @@ def run(ctx):
         for m in branch_models(None)[:4]:
             if hw.model_ok(m, w):
                 bblocks.append({"world": w, "model": m})
+    # long time grids (more than 256 / 512 steps; T = 257 and 513 leave a one-step remainder for any
+    # implementation that works in blocks of 256): all periodic paths of period 3 over the alphabet
+    for Tl, ul in itertools.product((257, 300, 513) if ctx.quick else (257, 300, 513, 1025), ("brownian", "heston")):
+        if ctx.quick and ul == "heston" and Tl != 300:
+            continue
+        w = {"ul": ul, "kind": "european", "call": True, "T": Tl, "As": As, "period": 3,
+             "Av": Av["variance"] if ul == "heston" else None, "dtype": "float64", "hedge": "default", "cost": 1 / 128}
+        for m in branch_models(None)[:1] + branch_models(None)[2:3] + [{"model": "bs"}]:
+            if hw.model_ok(m, w):
+                bblocks.append({"world": w, "model": m})
+        if Tl == 300:
+            fblocks.append({"world": w, "features": [f for f in feature_specs(As, None) if f["f"] != "module_output"],
+                            "feature_list": False})
+            lblocks.append({"world": w, "model": loop_models(1)[0]})
     # ---- (i') re-simulation histories on one derivative object
     rblocks = []
     for ul, kind, listed, dtype in itertools.product(
